@@ -26,6 +26,13 @@ def run(chk):
     seen.add(s)
     key = 'C09:nnx:' + '>'.join(e['op'] + (':' + e.get('name', '') if 'name' in e else '') + (':key' if e.get('askey') else '') for e in beh['h'])
     rngs = nnx.Rngs(**{nme: seeds[nme] for nme in beh['streams0']})
+
+    class Holder(nnx.Module):      # the graph: one Rngs at the top, a second one inside a sub-module (same stream names, other seeds)
+      def __init__(self):
+        self.rngs = rngs
+        self.sub = nnx.Dict(rngs=nnx.Rngs(**{nme: seeds[nme] + 50 for nme in beh['streams0']})) if hasattr(nnx, 'Dict') else None
+    holder = Holder()
+    rngs2 = holder.sub['rngs'] if holder.sub is not None else None
     id2b, b2id = {}, {}
     backups = None
     bad = None
@@ -40,6 +47,8 @@ def run(chk):
             res = 'AttributeError'
           if res != e['result']:
             bad = f"draw from {e['name']!r}: {res}, specification {e['result']} (a missing stream falls back to 'default')"
+        elif e['op'] == 'draw2':
+          got = [kb(getattr(rngs2, e['name'])())]
         elif e['op'] == 'split':
           only = tuple(e['only'])
           backups = nnx.split_rngs(rngs, splits=2, only=nnx.Any(*only) if len(only) > 1 else only[0])
@@ -52,7 +61,7 @@ def run(chk):
           nnx.restore_rngs(backups)
           backups = None
         elif e['op'] == 'reseed':
-          nnx.reseed(rngs, **{e['name']: (jax.random.key(e['seed']) if e['askey'] else e['seed'])})
+          nnx.reseed(holder, **{e['name']: (jax.random.key(e['seed']) if e['askey'] else e['seed'])})
       except Exception as ex:
         bad = f"{e['op']} raised {type(ex).__name__}: {str(ex)[:160]}"
       if bad:
